@@ -82,49 +82,57 @@ def repeatN {α} (n : Nat) (f : α → α) (x : α) : α :=
   | 0 => x
   | n + 1 => repeatN n f (f x)
 
-def postProcess (m : RMatrix) : PMatrix :=
-  -- long names
-  let ecus1 : List (Str × List (Str × Str)) := m.ecus.map fun e => longName "SystemNodeLongSymbol" e.name e.attrs
-  let sigOf (s : RSig) : PSig :=
-    let (n, a) := longName "SystemSignalLongSymbol" s.sg.name s.attrs
-    { name := n, receivers := s.sg.receivers, attrs := a, comment := s.comment }
-  let frames1 : List PFrame := m.frames.map fun f =>
-    let (n, a) := longName "SystemMessageLongSymbol" f.name f.attrs
-    { key := f.key, name := n, tx := f.transmitters, rx := [], attrs := a, comment := f.comment, sigs := f.sigs.map sigOf }
-  -- texts of STRING attributes
-  let gattrs := stripStrings m.defs .global m.attrs
-  let ecus2 := ecus1.map fun (n, a) => (n, stripStrings m.defs .ecu a)
-  let frames2 : List PFrame := frames1.map fun (f : PFrame) =>
-    { f with attrs := stripStrings m.defs .frame f.attrs,
-             sigs := f.sigs.map fun (s : PSig) => { s with attrs := stripStrings m.defs .signal s.attrs } }
-  -- referenced ECUs
-  let names0 := ecus2.map (·.1)
-  let names1 := frames2.foldl (fun acc (f : PFrame) => (f.sigs.flatMap PSig.receivers).foldl addEcu (f.tx.foldl addEcu acc)) names0
-  -- the placeholder
+/-- long names of the ECUs -/
+def postEcus1 (m : RMatrix) : List (Str × List (Str × Str)) := m.ecus.map fun e => longName "SystemNodeLongSymbol" e.name e.attrs
+
+def postSig (s : RSig) : PSig :=
+  let (n, a) := longName "SystemSignalLongSymbol" s.sg.name s.attrs
+  { name := n, receivers := s.sg.receivers, attrs := a, comment := s.comment }
+
+/-- long names of frames and signals -/
+def postFrames1 (m : RMatrix) : List PFrame := m.frames.map fun f =>
+  let (n, a) := longName "SystemMessageLongSymbol" f.name f.attrs
+  { key := f.key, name := n, tx := f.transmitters, rx := [], attrs := a, comment := f.comment, sigs := f.sigs.map postSig }
+
+/-- texts of STRING attributes -/
+def postFrames2 (m : RMatrix) : List PFrame := (postFrames1 m).map fun (f : PFrame) =>
+  { f with attrs := stripStrings m.defs .frame f.attrs,
+           sigs := f.sigs.map fun (s : PSig) => { s with attrs := stripStrings m.defs .signal s.attrs } }
+
+/-- the ECU list with every referenced ECU -/
+def postNames1 (m : RMatrix) : List Str :=
+  (postFrames2 m).foldl (fun acc (f : PFrame) => (f.sigs.flatMap PSig.receivers).foldl addEcu (f.tx.foldl addEcu acc))
+    (((postEcus1 m).map fun (n, a) => (n, stripStrings m.defs .ecu a)).map (·.1))
+
+/-- without the placeholder -/
+def postFrames3 (m : RMatrix) : List PFrame :=
   let v := "Vector__XXX".toList
-  let nV := (names1.filter fun n => n == v).length
-  let names2 := names1.filter fun n => n != v
+  let nV := ((postNames1 m).filter fun n => n == v).length
   let dropV (l : List Str) : List Str := repeatN nV (fun x => removeFirst x v) l
-  let frames3 : List PFrame := frames2.map fun (f : PFrame) =>
+  (postFrames2 m).map fun (f : PFrame) =>
     let sigs' : List PSig := f.sigs.map fun (s : PSig) => { s with receivers := dropV s.receivers }
     { f with tx := dropV f.tx, sigs := sigs', rx := (sigs'.flatMap PSig.receivers).foldl addUniqueStr [] }
-  -- signals without frame
-  let isDummy (f : PFrame) : Bool := f.name == "VECTOR__INDEPENDENT_SIG_MSG".toList
-  let (frames4, free) :=
-    match frames3.find? isDummy with
-    | some d =>
-      if d.key.1 == 0x40000000 then
-        -- `del_frame`: the first frame that equals it is removed
-        let rec dropFirst : List PFrame → List PFrame
-          | [] => []
-          | a :: r => if a == d then r else a :: dropFirst r
-        (dropFirst frames3, d.sigs)
-      else (frames3, [])
-    | none => (frames3, [])
+
+def isDummyFrame (f : PFrame) : Bool := f.name == "VECTOR__INDEPENDENT_SIG_MSG".toList
+
+/-- `del_frame`: the first frame that equals it is removed -/
+def dropFirstFrame (d : PFrame) : List PFrame → List PFrame
+  | [] => []
+  | a :: r => if a == d then r else a :: dropFirstFrame d r
+
+/-- signals without frame: the signals of the pseudo frame move to the matrix, the frame goes -/
+def splitDummy (fs : List PFrame) : List PFrame × List PSig :=
+  match fs.find? isDummyFrame with
+  | some d => if d.key.1 == 0x40000000 then (dropFirstFrame d fs, d.sigs) else (fs, [])
+  | none => (fs, [])
+
+def postProcess (m : RMatrix) : PMatrix :=
+  let gattrs := stripStrings m.defs .global m.attrs
+  let names2 := (postNames1 m).filter fun n => n != "Vector__XXX".toList
   let keepSig (s : PSig) : PSig := { s with attrs := keptAttrs m.defs .signal s.attrs }
   { ecus := names2,
-    frames := frames4.map fun (f : PFrame) => { f with attrs := keptAttrs m.defs .frame f.attrs, sigs := f.sigs.map keepSig },
-    free := free.map keepSig,
+    frames := (splitDummy (postFrames3 m)).1.map fun (f : PFrame) => { f with attrs := keptAttrs m.defs .frame f.attrs, sigs := f.sigs.map keepSig },
+    free := (splitDummy (postFrames3 m)).2.map keepSig,
     attrs := keptAttrs m.defs .global gattrs }
 
 end CanVerif.Dbc
